@@ -344,6 +344,10 @@ type c16Target struct {
 	sharded    *ShardedLRURevisionCache
 	items, mem base.SgwIntStat
 	hits, miss base.SgwIntStat
+	// variant "orchd": orchestrator with its delta cache (verif_c16_sched_test.go)
+	delta  *LRUDeltaCache
+	orch   *RevisionCacheOrchestrator
+	ditems base.SgwIntStat
 }
 
 func c16NewTarget(cfg c16Cfg, st RevisionCacheBackingStore) *c16Target {
@@ -359,6 +363,10 @@ func c16NewTarget(cfg c16Cfg, st RevisionCacheBackingStore) *c16Target {
 	case "orch":
 		o := NewRevisionCacheOrchestrator(opts, bs, stats, nil, false)
 		t.rc, t.shards, t.ctrls = o, []*LRURevisionCache{o.revisionCache}, []*CacheMemoryController{o.memoryController}
+	case "orchd":
+		o := NewRevisionCacheOrchestrator(opts, bs, stats, &base.DeltaSyncStats{DeltaCacheNumItems: &t.ditems}, true)
+		t.rc, t.shards, t.ctrls = o, []*LRURevisionCache{o.revisionCache}, []*CacheMemoryController{o.memoryController}
+		t.delta, t.orch = o.deltaCache, o
 	default:
 		s := NewShardedLRURevisionCache(opts, bs, stats, nil, false)
 		t.rc, t.sharded = s, s
@@ -1421,8 +1429,14 @@ func TestVerifC16(t *testing.T) {
 		c16RandomCase(r, rnd, "adversarial", true)
 	}
 
+	// ---- (c2) orchestrator WITH delta cache: UpdateDelta / GetWithDelta streams (Coq cases + monitors) ----
+	c16DeltaStreams(r, rnd)
+
 	// ---- (d) scheduled overlaps of load / put / remove / evict on the real code (monitors) ----
 	c16Scheduled(r)
+
+	// ---- (d2) the same kind of overlaps, parked deterministically, emitted as step-level Coq cases ----
+	c16StepSchedules(r, rnd)
 
 	// ---- (e) unscheduled concurrent stress, recount at rest ----
 	for i := 0; i < vBudget(4, 12); i++ {
@@ -1431,6 +1445,8 @@ func TestVerifC16(t *testing.T) {
 	for i := 0; i < 2; i++ {
 		c16Hammer(r, vSeed()*17+uint64(i), []string{"lru", "orch"}[i%2])
 	}
+
+	c16SingleFlightStorm(r, vSeed())
 
 	// ---- (f) system level: real databases, tiny caches, bypass comparison, user-xattr channel change ----
 	c16System(r)
